@@ -54,21 +54,25 @@ class Check(RecordingCheck):
             n += self.witness_mixed(work)
             # 2. search: plain edit histories (no fault), then faults at every commit inside
             #    record_call_node of the workloads followed by an edit
-            for name in ("chain", "two_args", "caught", "caught_deep"):
+            for name in ("chain", "two_args", "caught", "caught_deep", "noprov0"):
                 o = self.e2e(name, [], work, f"b{n}")
                 n += 1
                 if (o["edited"][0] == "ok" and o["stale_edited"]) or (o["same"][0] == "ok" and o["stale_same"]):
                     self.findings.append(Finding(
                         K_NOFAULT, f"workload {name}, no fault: after editing leaf the run returns "
                         f"{o['edited'][1]!r}, a fresh backend {o['expected_edited'][1]!r}", {"kind": "e2e", "workload": name, "plan": []}))
-            names = ["chain"] if self.tier == "quick" else list(rl.MODELLED_WORKLOADS)
+            # noprov*: children with prov=False, record_call_node records their Task values itself (nested commits)
+            names = ["chain", "noprov0", "noprov1"] if self.tier == "quick" else list(rl.MODELLED_WORKLOADS + rl.NOPROV_WORKLOADS)
             for name in names:
                 db = rl.fresh_db(str(work), "probe.db")
                 _, _, log, s = rl.sched_run(name, rl.LEAF_V1[name], db)
                 rl.close_backend(s.backend)
                 os.unlink(db)
                 idx = [i for i, _, site in log if "record_call_node" in site]
-                if self.tier == "quick":
+                if name in rl.NOPROV_WORKLOADS:
+                    # the commits of record_call_node(top) after its arguments: task values, subtree rows
+                    idx = [i for i, _, site in log if site.startswith("record_call_node") and "_record_args" not in site]
+                elif self.tier == "quick":
                     idx = idx[:: max(1, len(idx) // 8)]
                 for i in idx:
                     for fate in (FFAIL, FCRASH):
